@@ -20,8 +20,10 @@ from ..refmodel import reach, thermal_reach
 from ..runner import Finding, Outcome, derive_seed, run_cases, run_given
 
 RULE = ("(a) enumerated: every one of the 2^k patterns of the status flags (in_service / opened / control_active of branches, "
-        "junctions, feeders) on three fixed topologies (gas with ju+pi valve, flow controller, directed pressure controller; "
-        "heating loop with consumer, exchanger + flow controller; water with two ext grids, pump); quick k=8, thorough k=10..12; "
+        "junctions, feeders) on four fixed topologies (gas with ju+pi valve, flow controller, directed pressure controller; "
+        "heating loop with consumer, exchanger + flow controller; water with two ext grids, pump; gas with junction-pipe valves at "
+        "both ends of a pipe and in parallel, by-pass valve, duty + stand-by pressure controller, two ext grids on one junction); "
+        "quick k=8, thorough k=10..12; "
         "(b) generated hydraulic and heating nets with sparse/dense outage patterns and 1-3 feeders. Non-trivial = the pattern "
         "leaves >= 1 supplied and >= 1 unsupplied junction, or an inactive row precedes an active row in some table. "
         "Distinct = distinct recipe hash.")
@@ -30,7 +32,7 @@ ASSUMPTIONS = ["a junction-pipe valve that is closed leaves the pipe end open: t
                "junction t_k of unsupplied junctions is the ambient temperature by design and not asserted; the pressure is",
                "thermal pattern: branch temperatures exist iff the branch is hydraulically calculated and reachable from an "
                "in-service temperature feed over calculated branches"]
-EXHAUSTIVE_NOTE = "all 2^k status-flag patterns of the three fixed topologies (k = 8 quick; 10-12 thorough)"
+EXHAUSTIVE_NOTE = "all 2^k status-flag patterns of the four fixed topologies (k = 8 quick; 10-12 thorough)"
 EX = {"quick": 35, "thorough": 1500}
 
 T_COLS = ("t_from_k", "t_to_k", "t_outlet_k")
@@ -117,8 +119,42 @@ def topo_water():
     return {"fluid": "water", "sector": "all", "junction": J, "elements": E}, flags, {"mode": "hydraulics", "iter": 40}
 
 
-TOPOS = {"gas": topo_gas, "heat": topo_heat, "water": topo_water}
-K = {"quick": {"gas": 8, "heat": 8, "water": 8}, "thorough": {"gas": 12, "heat": 11, "water": 10}}
+def topo_valves():
+    """junction-pipe valves at both ends of one pipe and two in parallel at one end, a by-pass junction-junction valve, a duty and
+    an (always out-of-service) stand-by pressure controller for the same junction, two external grids on one junction."""
+    J = [{"index": i, "pn_bar": 2.0, "tfluid_k": 293.15, "height_m": 0.0, "in_service": True} for i in range(6)]
+
+    def pipe(i, a, b):
+        return {"table": "pipe", "index": i, "from_junction": a, "to_junction": b, "length_km": 0.2, "inner_diameter_mm": 100.0,
+                "k_mm": 0.1, "loss_coefficient": 0.0, "sections": 2 if i == 1 else 1, "in_service": True}
+
+    def pv(i, j, p):
+        return {"table": "valve", "index": i, "junction": j, "element": p, "et": "pi", "inner_diameter_mm": 100.0, "opened": True,
+                "loss_coefficient": 0.5}
+
+    def pc(i, p, svc):
+        return {"table": "press_control", "index": i, "from_junction": 3, "to_junction": 4, "controlled_junction": 4,
+                "controlled_p_bar": p, "control_active": True, "loss_coefficient": 0.0, "in_service": svc,
+                "check_controllability": False}
+    E = [
+        {"table": "ext_grid", "index": 0, "junction": 0, "p_bar": 2.0, "t_k": 293.15, "type": "pt", "in_service": True},
+        {"table": "ext_grid", "index": 1, "junction": 0, "p_bar": 2.2, "t_k": 293.15, "type": "p", "in_service": True},
+        pipe(0, 0, 1), pipe(1, 1, 2), pv(0, 1, 1), pv(1, 2, 1), pv(2, 2, 1), pipe(2, 2, 3),
+        {"table": "valve", "index": 3, "junction": 1, "element": 3, "et": "ju", "inner_diameter_mm": 50.0, "opened": True,
+         "loss_coefficient": 5.0},
+        pc(0, 1.5, True), pc(1, 1.1, False), pipe(3, 4, 5),
+        {"table": "sink", "index": 0, "junction": 2, "mdot_kg_per_s": 0.01, "scaling": 1.0, "in_service": True},
+        {"table": "sink", "index": 1, "junction": 3, "mdot_kg_per_s": 0.01, "scaling": 1.0, "in_service": True},
+        {"table": "sink", "index": 2, "junction": 5, "mdot_kg_per_s": 0.02, "scaling": 1.0, "in_service": True},
+    ]
+    flags = [("valve", 0, "opened"), ("valve", 1, "opened"), ("valve", 2, "opened"), ("valve", 3, "opened"),
+             ("press_control", 0, "in_service"), ("pipe", 1, "in_service"), ("ext_grid", 1, "in_service"), ("junction", 2, "in_service"),
+             ("pipe", 2, "in_service"), ("ext_grid", 0, "in_service"), ("press_control", 0, "control_active")]
+    return {"fluid": "lgas", "sector": "all", "junction": J, "elements": E}, flags, {"mode": "hydraulics", "iter": 40}
+
+
+TOPOS = {"gas": topo_gas, "heat": topo_heat, "water": topo_water, "valves": topo_valves}
+K = {"quick": {"gas": 8, "heat": 8, "water": 8, "valves": 8}, "thorough": {"gas": 12, "heat": 11, "water": 10, "valves": 11}}
 
 
 def apply_pattern(name, bits):
